@@ -14,6 +14,8 @@ import (
 	"os"
 	"path/filepath"
 	"reflect"
+	"regexp"
+	"strconv"
 	"strings"
 )
 
@@ -229,6 +231,53 @@ func firstInvalidLine(log []byte) int {
 	return 0
 }
 
+// namesEarlierBadLine: the message names a line before the first non-JSON line,
+// and that line, though JSON, is not an event record (not an object, or an
+// object whose type/ts are not strings or whose data is not an object): the
+// command may stop there first, the statement only fixes what is named when the
+// complaint is about a non-JSON line.
+func namesEarlierBadLine(stderr []byte, lp string, log []byte, inv int) bool {
+	m := regexp.MustCompile(regexp.QuoteMeta(lp) + `:(\d+):`).FindSubmatch(stderr)
+	if m == nil {
+		return false
+	}
+	n, _ := strconv.Atoi(string(m[1]))
+	ls := splitKeep(log)
+	if n < 1 || n >= inv || n > len(ls) {
+		return false
+	}
+	if len(bytes.TrimSpace(ls[n-1])) == 0 {
+		return false // blank lines are skipped, never complained about
+	}
+	var obj map[string]json.RawMessage
+	if json.Unmarshal(bytes.TrimSpace(ls[n-1]), &obj) != nil {
+		return true
+	}
+	for _, k := range []string{"type", "ts"} {
+		if raw, ok := obj[k]; ok {
+			var s string
+			if json.Unmarshal(raw, &s) != nil {
+				return true
+			}
+		}
+	}
+	if raw, ok := obj["data"]; ok {
+		var d map[string]any
+		if json.Unmarshal(raw, &d) != nil {
+			return true
+		}
+		for k, v := range d {
+			switch k {
+			case "id", "uuid", "epic_id", "state", "title", "body", "agent_id", "from_id", "to_id", "type", "created_at", "updated_at", "ts":
+				if _, ok := v.(string); !ok && v != nil {
+					return true
+				}
+			}
+		}
+	}
+	return false
+}
+
 type eventTriple struct {
 	Type string
 	TS   string
@@ -307,7 +356,7 @@ func (r *Run) judgeCorrupt(c Cmd, kind string, damaged []byte, lp string) {
 		want := fmt.Sprintf("%s:%d:", lp, inv)
 		if !bytes.Contains(p.Stderr, []byte(want)) && !bytes.Contains(p.Stderr, []byte(fmt.Sprintf("%s:", lp))) {
 			r.viol("C12", "error-names-no-file", c.Op+"|"+kind, "%s failed on a log whose line %d is not JSON, but the message names no file: %s", shape, inv, tail(p.Stderr))
-		} else if !bytes.Contains(p.Stderr, []byte(want)) {
+		} else if !bytes.Contains(p.Stderr, []byte(want)) && !namesEarlierBadLine(p.Stderr, lp, damaged, inv) {
 			r.viol("C12", "error-names-wrong-line", c.Op+"|"+kind, "%s failed on a log whose first non-JSON line is %d, but the message does not say %q: %s", shape, inv, want, tail(p.Stderr))
 		}
 	}
